@@ -207,6 +207,16 @@ func (s *summary) write(o opts) int {
 	return 0
 }
 
+// thinKeep: a seeded thinning by content (about one in `stride`), independent of the order in which the cases arrive, so that
+// no source of a concatenated case stream is starved by a cap because it comes late
+func thinKeep(src []byte, stride, seed int) bool {
+	if stride <= 1 {
+		return true
+	}
+	h := sha256.Sum256(src)
+	return (int(h[0])<<8|int(h[1])+seed)%stride == 0
+}
+
 func sha(b []byte) string {
 	h := sha256.Sum256(b)
 	return hex.EncodeToString(h[:8])
